@@ -223,6 +223,9 @@ def run(facts, rep, tier, ctx):
     n = c09.table_u(facts, rep, ws, "R04.4u", only=("append_file",))
     n += overlay_read_delegation(facts, rep, ws)
     rep.floor("overlay routing obligations", n, 4)
+    # what a write session / copy creates through the overlay must be visible afterwards: the path's deletion marker is gone
+    from . import c10
+    c10.marker_rules(facts, rep, ws, prefix="R04.4m", only=("R10.3",))
     n = read_to_string_rules(facts, rep, ws, D)
     rep.floor("read_to_string obligations", n, 2)
     # reader window (C14's read shape) and PhysicalFS open options decide which bytes come back
@@ -243,6 +246,7 @@ def run(facts, rep, tier, ctx):
         k += pra.generic_routes(A, "R04.4")
         k += c09.table_u(facts, A, wa, "R04.4u", only=("append_file",))
         k += overlay_read_delegation(facts, A, wa)
+        k += c10.marker_rules(facts, A, wa, prefix="R04.4m", only=("R10.3",))
         k += read_to_string_rules(facts, A, wa, D)
         ha.read_rules(A, "R04.r")
         physrules.table_o_shape(facts, A, "R04.2p", wa)
